@@ -95,35 +95,52 @@ Lemma ascii_lower_ascii : forall c, c < 128 -> ascii_lower c < 128.
 Proof. intros c H. unfold ascii_lower, in_rng. destruct ((65 <=? c) && (c <=? 90)) eqn:E; lia. Qed.
 
 (* the three finite checks on the generated tables *)
-Lemma upper_table_checks :
-  table_idem upper_table = true /\ table_valid upper_table = true
-  /\ table_ascii upper_table ascii_upper = true.
-Proof. repeat split; vm_cast_no_check (eq_refl true). Qed.
-Lemma lower_table_checks :
-  table_idem lower_table = true /\ table_valid lower_table = true
-  /\ table_ascii lower_table ascii_lower = true.
-Proof. repeat split; vm_cast_no_check (eq_refl true). Qed.
+Lemma upper_table_idem : table_idem upper_table = true.
+Proof. vm_cast_no_check (eq_refl true). Qed.
+Lemma upper_table_valid : table_valid upper_table = true.
+Proof. vm_cast_no_check (eq_refl true). Qed.
+Lemma upper_table_ascii : table_ascii upper_table ascii_upper = true.
+Proof. vm_cast_no_check (eq_refl true). Qed.
+Lemma lower_table_idem : table_idem lower_table = true.
+Proof. vm_cast_no_check (eq_refl true). Qed.
+Lemma lower_table_valid : table_valid lower_table = true.
+Proof. vm_cast_no_check (eq_refl true). Qed.
+Lemma lower_table_ascii : table_ascii lower_table ascii_lower = true.
+Proof. vm_cast_no_check (eq_refl true). Qed.
 
 (* rune level: unicode.ToUpper (unicode.ToUpper r) = unicode.ToUpper r for every rune *)
 Theorem upper_rune_idem : forall r,
   rune_map upper_table (rune_map upper_table r) = rune_map upper_table r.
-Proof. apply rune_map_idem. apply upper_table_checks. Qed.
+Proof. exact (rune_map_idem upper_table upper_table_idem). Qed.
 Theorem lower_rune_idem : forall r,
   rune_map lower_table (rune_map lower_table r) = rune_map lower_table r.
-Proof. apply rune_map_idem. apply lower_table_checks. Qed.
+Proof. exact (rune_map_idem lower_table lower_table_idem). Qed.
+
+Lemma go_to_upper_case : forall T s, go_to_upper T s = go_case T ascii_upper s.
+Proof. reflexivity. Qed.
+Lemma go_to_lower_case : forall T s, go_to_lower T s = go_case T ascii_lower s.
+Proof. reflexivity. Qed.
 
 Theorem upper_idem : forall s,
   go_to_upper upper_table (go_to_upper upper_table s) = go_to_upper upper_table s.
 Proof.
-  destruct upper_table_checks as (H1 & H2 & H3).
-  exact (go_case_idem upper_table ascii_upper H1 H2 H3 ascii_upper_ascii).
+  intros s. rewrite !go_to_upper_case.
+  apply go_case_idem.
+  - exact upper_table_idem.
+  - exact upper_table_valid.
+  - exact upper_table_ascii.
+  - exact ascii_upper_ascii.
 Qed.
 
 Theorem lower_idem : forall s,
   go_to_lower lower_table (go_to_lower lower_table s) = go_to_lower lower_table s.
 Proof.
-  destruct lower_table_checks as (H1 & H2 & H3).
-  exact (go_case_idem lower_table ascii_lower H1 H2 H3 ascii_lower_ascii).
+  intros s. rewrite !go_to_lower_case.
+  apply go_case_idem.
+  - exact lower_table_idem.
+  - exact lower_table_valid.
+  - exact lower_table_ascii.
+  - exact ascii_lower_ascii.
 Qed.
 
 (* upper-casing is not the identity on upper-cased text of another script:
